@@ -3,7 +3,7 @@ from . import core, devs_common as D
 
 PROP = "C14"
 DRIVER = "drv_devs"
-LEAN_MODULES = ["MesaModel.Props.C14"]
+LEAN_MODULES = ["MesaModel.Props.C14", "MesaModel.Props.C14Life"]
 THEOREMS = ["Mesa.Devs." + t for t in (
     "C14_queue_sorted", "C14_next_is_least_live", "C14_exactly_once_accounting", "C14_never_twice",
     "C14_only_cancelled_or_dead_discarded", "C14_cancelled_never_popped", "C14_cancelled_never_executes", "C14_cancel_marks", "C14_clock_is_event_time",
@@ -12,8 +12,10 @@ THEOREMS = ["Mesa.Devs." + t for t in (
     "C14_heap_refines_sorted_queue", "C14_spared_event_is_served", "C14_spared_event_is_served_rel",
     "C14_spared_due_event_executed", "C14_spared_due_event_executed_rel", "C14_execution_order", "C14_execution_order_history", "C14_history_traces_are_histories", "C14_collected_never_executes",
     "C14_shared_callable_event_is_served", "C14_shared_due_event_executed", "C14_collected_callable_never_runs",
-    "C14_drop_kills_every_sharer", "C14_weakref_dead_iff_callable_dropped", "C14_run_until_aborted", "C14_run_next_aborted", "C14_raising_event_never_rerun", "C14_resume_after_exception")]
-COUNTS = {"quick": 600, "thorough": 200000}
+    "C14_drop_kills_every_sharer", "C14_weakref_dead_iff_callable_dropped", "C14_run_until_aborted", "C14_run_next_aborted", "C14_raising_event_never_rerun", "C14_resume_after_exception",
+    "C14_life_core_reachable", "C14_life_idle_is_pristine", "C14_life_refused_unchanged", "C14_life_run_refused_iff",
+    "C14_life_setup_refused_iff", "C14_life_setup_starts_pristine")]
+COUNTS = {"quick": 650, "thorough": 216000}
 TRUSTED = [
     "heapq: no longer assumed — Model/Heap.lean transcribes Lib/heapq.py (heappush/heappop/_siftdown/_siftup), Proofs/Heap.lean proves it a priority queue for any strict weak order, Proofs/DevsHeap.lean proves the model's sorted list a sound abstraction of the heap array, and every check compares the transcription's array layout with CPython's heapq (the C accelerator _heapq is what actually runs); trusted: that EventList reaches its list only through heappush / heappop / iteration (read off the source)",
     "CPython weakref: a callable dies exactly when the program drops its last strong reference (refcounting); a callable that drops itself while it runs is kept alive by the running call only (it is dead when the call returns)",
@@ -28,11 +30,24 @@ RULE = ("random scenarios over both simulator classes: <=5 event programs (neste
         "cancel, drop, until, for, next, peek}; a shared-callable stream (few callables scheduled many times, same-tick sharers, drops "
         "from the callable itself / other events / top level, cancels of single sharers; functions and bound methods); a raise stream "
         "(programs and step bodies that raise Index/Value/Key with events still due, the same horizon again after the exception) with "
-        "times from a small set so that ties in time and priority are frequent; non-trivial = at least one run op executed "
+        "a lifecycle stream (Model/DevsLife.lean: scheduling without a model, run calls before setup, setup on a used simulator, setup "
+        "twice, reset anywhere); times from a small set so that ties in time and priority are frequent; non-trivial = at least one run op executed "
         ">= 2 events; distinct = distinct op-line sequences (sha1)")
 
 
 def generate(rng, tier, count):
+    # the lifecycle stream comes last and draws from a generator of its own (a copy of `rng`'s state), so the scenarios of the
+    # other streams are the ones they were before it was added
+    n_life = count // 13
+    yield from _generate(rng, count - n_life)
+    import random as _random
+    R2 = _random.Random()
+    R2.setstate(rng.getstate())
+    for _ in range(n_life):
+        yield D.gen_lifecycle(R2)
+
+
+def _generate(rng, count):
     for i in range(count):
         k = rng.random()
         if k < 0.15:
@@ -81,6 +96,7 @@ def tags(sc, obs):
         yield "branch:callable-collected"
     yield from sorted(D.shared_tags(tr))
     yield from sorted(D.raise_tags(sc, tr))
+    yield from sorted(D.life_tags(sc, obs))
 
 
 if __name__ == "__main__":
